@@ -392,11 +392,30 @@ func c15ModelOrders() (fails []c15Fail) {
 	return nil
 }
 
+// c15Population: genome ids 0,1,2,.. ; then the same population with ids that are not the positions - all equal
+// (an archive of champions, parents kept beside their offspring: every generation numbers its genomes from 0)
+// and descending with gaps.
 func c15Population(gs []*GenomeSpec) (fails []c15Fail) {
+	for mode := 0; mode < 3 && len(fails) == 0; mode++ {
+		fails = c15PopulationIDs(gs, mode)
+	}
+	return fails
+}
+
+func c15PopulationIDs(gs []*GenomeSpec, idMode int) (fails []c15Fail) {
+	idOf := func(i int) int {
+		switch idMode {
+		case 1:
+			return 7
+		case 2:
+			return 100 - 3*i
+		}
+		return i
+	}
 	pop := genetics.VNewEmptyPopulation()
 	for i, g := range gs {
 		c := cloneSpec(g)
-		c.ID = i
+		c.ID = idOf(i)
 		o, _ := genetics.NewOrganism(0, c.Build(), 1)
 		pop.Organisms = append(pop.Organisms, o)
 	}
@@ -417,8 +436,8 @@ func c15Population(gs []*GenomeSpec) (fails []c15Fail) {
 		if k := normKey(SpecOf(back.Organisms[i].Genotype)); k != normKey(g) {
 			return []c15Fail{{"population/genome-differs", fmt.Sprintf("genome #%d of the population read back differs: %s", i, diffKeys(normKey(g), k))}}
 		}
-		if back.Organisms[i].Genotype.Id != i {
-			return []c15Fail{{"population/genome-id", fmt.Sprintf("genome #%d read back with id %d", i, back.Organisms[i].Genotype.Id)}}
+		if back.Organisms[i].Genotype.Id != idOf(i) {
+			return []c15Fail{{"population/genome-id", fmt.Sprintf("genome #%d (written with id %d) read back with id %d", i, idOf(i), back.Organisms[i].Genotype.Id)}}
 		}
 		if msg := wellFormed(back.Organisms[i].Genotype); msg != "" && wellFormed(g.Build()) == "" {
 			return []c15Fail{{"population/ill-formed", fmt.Sprintf("genome #%d read back is not well-formed: %s", i, msg)}}
@@ -799,7 +818,7 @@ func runC15(c *Ctx) {
 	c.Count("experiment_round_trips", exps)
 	c.Sample(map[string]interface{}{"genome": fam[len(fam)/3].Short(), "encodings": []string{"plain Write -> GenomeReader.Read", "plain Write -> ReadGenome", "YAML"}})
 	c.Sample(map[string]interface{}{"floats": c15Floats})
-	c.Rule = "genomes: start genomes, corner genomes, two unusual node layouts, each gene weight/mutation number and each trait parameter of four base genomes replaced in turn by every value of a 21-value hard-float alphabet (incl. 1e21/1e-5 where %g changes notation, MaxFloat64, 5e-324), every registered scalar activation type, three trait-reference patterns, all GenomeSpace states to depth 2 (3 thorough) of three families; each through plain Write->Read, plain Write->ReadGenome and YAML (the base genomes also through files read with NewGenomeReaderFromFile under five file names) (modular genomes: YAML only) and compared bit for bit (sign of zero excepted) incl. id and pointer wiring. organisms: MarshalBinary->UnmarshalBinary over fitness alphabet x generation {0,1,7}. populations: every multiset of <= 3 genomes from a family of 6 (1-3 traits) through Population.Write->ReadPopulation. fast-solver models: all 2^9 feed-forward edge sets over {bias,input,2 hidden,output} with hard-float weights + modular, WriteModel->ReadFMNSModel, outputs of 3 solver modes on 4 inputs bit-equal; plus directly constructed solvers whose connection list is in every order (summation order decides the last bit). organisms are also marshalled a second time after their genotype changed in place / was replaced. experiments: every single-trial shape of <= 2 (3) generations over a 6-record menu plus two- and three-trial combinations, Write->Read, records, champions and 8 derived statistics equal. non-trivial = distinct genomes written"
+	c.Rule = "genomes: start genomes, corner genomes, two unusual node layouts, each gene weight/mutation number and each trait parameter of four base genomes replaced in turn by every value of a 21-value hard-float alphabet (incl. 1e21/1e-5 where %g changes notation, MaxFloat64, 5e-324), every registered scalar activation type, three trait-reference patterns, all GenomeSpace states to depth 2 (3 thorough) of three families; each through plain Write->Read, plain Write->ReadGenome and YAML (the base genomes also through files read with NewGenomeReaderFromFile under five file names) (modular genomes: YAML only) and compared bit for bit (sign of zero excepted) incl. id and pointer wiring. organisms: MarshalBinary->UnmarshalBinary over fitness alphabet x generation {0,1,7}. populations: every multiset of <= 3 genomes from a family of 6 (1-3 traits), with genome ids that are the positions / all equal / descending with gaps, through Population.Write->ReadPopulation. fast-solver models: all 2^9 feed-forward edge sets over {bias,input,2 hidden,output} with hard-float weights + modular, WriteModel->ReadFMNSModel, outputs of 3 solver modes on 4 inputs bit-equal; plus directly constructed solvers whose connection list is in every order (summation order decides the last bit). organisms are also marshalled a second time after their genotype changed in place / was replaced. experiments: every single-trial shape of <= 2 (3) generations over a 6-record menu plus two- and three-trial combinations, Write->Read, records, champions and 8 derived statistics equal. non-trivial = distinct genomes written"
 	c.Assume("a zero weight's sign is not compared; generation records always carry a champion (as FillPopulationStatistics produces); RandSeed, MaxFitnessScore and species back-pointers are not part of the statement")
 }
 
